@@ -158,6 +158,18 @@ int main()
 			if(r) out = o=="\x01untouched" ? "flt valid" : "flt valid TOUCHED "+hex(o);
 			else out="flt filtered "+hex(o);
 		}
+		else if(v.size()>=4 && v[0]=="fls") {
+			// ONE output string object reused across consecutive validate_or_filter calls (state that survives between operations)
+			std::string name=unhex(v[1]);
+			char repl=char(strtoul(v[2].c_str(),0,16));
+			std::string o="\x01untouched";
+			out="fls";
+			for(size_t k=3;k<v.size();k++) {
+				std::string s=unhex(v[k]);
+				bool r=cppcms::encoding::validate_or_filter(name,s.data(),s.data()+s.size(),o,repl);
+				out+= r ? " v:" : " f:"; out+=hex(o);
+			}
+		}
 		else if(v.size()==2 && v[0]=="dv") {
 			// unchecked decoder: only ever given input that starts with a well-formed sequence
 			std::string s=unhex(v[1]);
